@@ -31,9 +31,9 @@ func closers(w *World) []*closer {
 		c.flag = w.Field(w.Godi, o, "disposed")
 		_, st := w.Struct(w.Godi, o)
 		var lists []*types.Var
-		for i := 0; i < st.NumFields(); i++ {
-			if sl, ok := st.Field(i).Type().Underlying().(*types.Slice); ok && isNamedType(sl.Elem(), modPath, "Disposable") {
-				lists = append(lists, st.Field(i))
+		for _, f := range flatFields(st) {
+			if sl, ok := f.Type().Underlying().(*types.Slice); ok && isNamedType(sl.Elem(), modPath, "Disposable") {
+				lists = append(lists, f)
 			}
 		}
 		if len(lists) == 0 {
